@@ -130,8 +130,34 @@ impl CopyWorld {
         (g_addr, log)
     }
 
+    /// atomic load / store at offset `off` of a slice whose base has skew `gs`: ok iff the real location is aligned
+    fn atomic(&mut self, rec: &mut Rec, kv: &Kv, line: &str) -> String {
+        use std::sync::atomic::Ordering::SeqCst;
+        let (gs, off, ts) = (kv.us("gs"), kv.us("off"), kv.us("ts"));
+        let base = self.guest.0.as_mut_ptr() as usize + 64 + gs;
+        let vs = unsafe { VolatileSlice::new(base as *mut u8, 40) };
+        let store = kv.s("how") == "store";
+        macro_rules! at {
+            ($T:ty) => {{
+                if store { vs.store::<$T>(1 as $T, off, SeqCst).map_err(|e| crate::slice::verr(&e)) } else { vs.load::<$T>(off, SeqCst).map(|_| ()).map_err(|e| crate::slice::verr(&e)) }
+            }};
+        }
+        let r = match ts { 1 => at!(u8), 2 => at!(u16), 4 => at!(u32), _ => at!(u64) };
+        let fits = off + ts <= 40;
+        let aligned = (base + off) % ts == 0;
+        // C06: "the atomic load and store operations ... refuse misaligned addresses"
+        if r.is_ok() != (fits && aligned) {
+            rec.fail("C06", &format!("atomic-{}/alignment", kv.s("how")), &format!("{} location%{}={} -> {:?}", line, ts, (base + off) % ts, r));
+        }
+        self.last = (base, 40);
+        match r { Ok(()) => "ok".into(), Err(e) => e }
+    }
+
     pub fn exec(&mut self, rec: &mut Rec, line: &str) -> String {
         let kv = Kv::parse(line);
+        if kv.op == "c.atomic" || kv.s("how") == "store" || kv.s("how") == "load" {
+            return self.atomic(rec, &kv, line);
+        }
         let how = kv.s("how");
         let total = kv.us("total");
         if OBJ_HOWS.contains(&how) {
@@ -189,6 +215,18 @@ pub fn run(rec: &mut Rec, rng: &mut Rng, n_random: usize, tear_secs: u64) {
         for size in [1usize, 2, 4, 8] {
             for gs in 0..8 {
                 go(&mut w, rec, format!("x how={} total={} gs={}", how, size, gs));
+            }
+        }
+    }
+    // atomic loads/stores refuse misaligned locations: every slice skew x offset x width
+    for how in ["store", "load"] {
+        for ts in [1usize, 2, 4, 8] {
+            for gs in 0..16 {
+                for off in 0..=33 {
+                    let line = format!("how={} ts={} gs={} off={}", how, ts, gs, off);
+                    let out = w.exec(rec, &format!("x {}", line));
+                    rec.push(format!("c.atomic base={} size=40 {}", w.last.0, line), out, true);
+                }
             }
         }
     }
